@@ -289,7 +289,7 @@ claim("C17", "proof",
       "DESIGN.md section 6, C17")
 
 claim("C09", "proof",
-      "Coq theorems: View::split partitions the voxels exactly for every axis mask; Heightmap::recurse (skip / pixel pass / "
+      "Translator tie: the control skeleton of Heightmap::recurse (order of the tests, fill condition isFilled && isSafe, recursion unless isEmpty, higher half first) is re-read from heightmap.cpp on every run (Gen/HeightmapRecurse_gen.v) and proved equal to the model's recurse (C09_recurse_from_source).  Coq theorems: View::split partitions the voxels exactly for every axis mask; Heightmap::recurse (skip / pixel pass / "
       "fill / split, upper half first) leaves each pixel at the brute-force column maximum for every sound interval oracle; "
       "the XY pre-partition is disjoint and covering, so the image is the same for every worker count and order.  Tie: "
       "chains of View::split<A> on generated grids vs the extracted model (corner, size exact).  Oracle: Heightmap::render "
